@@ -125,7 +125,8 @@ class Ctx:
     """True once the shard used `frac` of its wall-clock allowance.  Only
     ever used to *cut a workload short* on a loaded machine (the counters say
     how far it got); never a verdict."""
-    if time.time() - self.t_start > frac * self.spec.get('timeout', 1500):
+    if time.time() - self.t_start > frac * self.spec.get(
+        'timeout', 1500 if self.tier == 'quick' else 3600):
       if not self.counters.get('workload_cut_by_time_budget'):
         self.count('workload_cut_by_time_budget')
       return True
@@ -215,8 +216,12 @@ def worker_main(argv):
   os.replace(out + '.tmp', out)
 
 
-def run_shards(prop, tier, seed, specs, jobs=16, default_timeout=1500):
+def run_shards(prop, tier, seed, specs, jobs=16, default_timeout=None):
   """Runs shard specs in subprocesses; returns list of result dicts."""
+  if default_timeout is None:
+    # (a hang detector, generous on purpose: a loaded machine must not turn
+    # a finished workload into an inconclusive run)
+    default_timeout = 1500 if tier == 'quick' else 3600
   run_dir = os.path.join(BUILD, 'run-%s-%d' % (prop, os.getpid()))
   os.makedirs(run_dir, exist_ok=True)
   env = dict(os.environ)
